@@ -100,11 +100,11 @@ package gzip
 //@   ensures[C07 C08 C15 sticky] old(z.err) != nil ==> n == 0 && err == old(z.err) && extReads == old(extReads)
 //@   ensures[C07 C15 err-recorded] err != nil && err != io.EOF ==> z.err == err
 //@   ensures[C07 n-in-range] 0 <= n && n <= len(p)
-//@   ensures@6[C07 eof-checked] digest == lastCrc && !z.multistream
+//@   ensures@6[C07 eof-checked] le32(z.buf[:], 0) == lastCrc && !z.multistream
 //@   ensures@5[C07 mismatch-is-error] err == ErrChecksum
 //@   ensures@4[C07 C15 trailer-cut] err != io.EOF && (rfErr == io.EOF ==> err == io.ErrUnexpectedEOF) && (rfErr != io.EOF ==> err == rfErr)
 //@   ensures@6[C08 eof-sticky] z.err == io.EOF
-//@   ensures@6[C07 size-checked] size == old(z.size) + uint32(n) || size == uint32(n)
+//@   ensures@6[C07 size-checked] le32(z.buf[:], 4) == old(z.size) + uint32(n) || le32(z.buf[:], 4) == uint32(n)
 //@   ensures@7[C07 C08 next-member] z.multistream && (err == io.EOF ==> rfN == 0 && rfErr == io.EOF)
 //@   ensures@3[C15 src-err] err != io.EOF
 //@   assert call ReadFull 1 [C11 no-data-held] typeis(z.decompressor, *github.com/intel/fastgo/compress/flate.decompressor) ==> n == 0
